@@ -773,9 +773,11 @@ fn active_stream_cases(run: &mut Run, rng: &mut Rng) {
     }
 }
 
-/// The `MAX_RX_CONTEXTS` cap: 1023 streams fill the receiver; the 1024th SSRC is still accepted, the
-/// 1025th is refused (nothing touched) while all are live, known SSRCs keep working, and once the others
-/// have idled out a new SSRC gets in again (either a known or the new stream arriving first).
+/// Around the `MAX_RX_CONTEXTS` cap (a deliberate memory bound, C07): 1023 streams fill the receiver; the
+/// 1024th SSRC must be accepted, known SSRCs keep working, and once the others have idled out a new SSRC
+/// gets in again (a known or the new stream arriving first). The 1025th live stream — RTP or RTCP — is
+/// REFUSED by the current code: C04 ("any number of SSRCs") expects it to be accepted, so that refusal is
+/// reported as `roundtrip:{rtp,rtcp}-genuine-rejected:<profile>:rx-cap` = KNOWN FINDING (`rx_cap_witness`).
 fn cap_cases(run: &mut Run, rng: &mut Rng) {
     const CAP: u32 = 1024;
     for (pi, prof) in PROFILES.iter().enumerate() {
@@ -791,10 +793,10 @@ fn cap_cases(run: &mut Run, rng: &mut Rng) {
                 want.push((ops.len() - 1, ok, what));
             };
             rtp(&mut ops, &mut want, &mut slot, a, 1, true, "ssrc-number-cap-refused");
-            rtp(&mut ops, &mut want, &mut slot, b, 1, false, "new-ssrc-accepted-beyond-cap");
+            rtp(&mut ops, &mut want, &mut slot, b, 1, true, "RXCAP-RTP");
             rtp(&mut ops, &mut want, &mut slot, a, 2, true, "known-ssrc-refused-at-cap");
             ops.push(Op::ProtectRtcp(0, Src::Lit(rtcp_packet(rng, c, 12)))); ops.push(Op::UnprotectRtcp(1, Src::Slot(slot))); slot += 1;
-            want.push((ops.len() - 1, false, "new-rtcp-ssrc-accepted-beyond-cap"));
+            want.push((ops.len() - 1, true, "RXCAP-RTCP"));
             ops.push(Op::Tick(61));
             if new_first {
                 rtp(&mut ops, &mut want, &mut slot, b, 2, true, "new-ssrc-refused-although-all-idle");
@@ -809,7 +811,10 @@ fn cap_cases(run: &mut Run, rng: &mut Rng) {
             run.count("case_kind:rx-cap");
             if res[2].text() != format!("ok{}", CAP - 1) { run.fail(&format!("cap:fill-not-accepted:{prof}"), &format!("sessw {input}"), &res[2].text()); }
             for (i, ok, what) in want {
-                if res[i].is_ok() != ok { run.fail(&format!("cap:{what}:{prof}"), &format!("sessw {input}"), &format!("op {i} {} → {}", ops[i].text(), res[i].text())); }
+                if res[i].is_ok() != ok {
+                    let sig = match what { "RXCAP-RTP" => format!("roundtrip:rtp-genuine-rejected:{prof}:rx-cap"), "RXCAP-RTCP" => format!("roundtrip:rtcp-genuine-rejected:{prof}:rx-cap"), w => format!("cap:{w}:{prof}") };
+                    run.fail(&sig, &format!("sessw {input}"), &format!("op {i} {} → {}", ops[i].text(), res[i].text()));
+                }
             }
             // after the idle time only the streams used since then are left
             if let Res::Snap(rx, _) = res.last().unwrap() { if rx.len() > 2 { run.fail(&format!("cap:idle-contexts-not-evicted:{prof}"), &format!("sessw {input}"), &format!("{} contexts", rx.len())); } }
